@@ -102,6 +102,9 @@ class Explorer:
         self.reached = 0
         self.truncated = False
         self.t0 = time.time()
+        import os as _os
+        self.cross_budget = int(_os.environ.get("VERIF_CROSSCHECK", "1"))
+        self.cross = dict(checked=0, agree=0, unknown=0, disagree=0)
 
     # ------------------------------------------------------------------ solver
     def check(self, *extra):
@@ -273,6 +276,9 @@ class Explorer:
         r = self.check(z3.Not(cond))
         if r == "unsat":
             self.discharged += 1
+            if self.cross_budget > 0:
+                self.cross_budget -= 1
+                self._cross_check(z3.Not(cond), label)
             return True
         if r == "sat":
             if not self._record_failure(z3.Not(cond), label, detail):
@@ -281,6 +287,42 @@ class Explorer:
             return False
         self.inconclusive.append((label, "solver unknown"))
         return False
+
+    def _cross_check(self, negated, label):
+        """Second opinion on a discharged obligation: the same query (path condition + negated obligation) as
+        SMT-LIB2 text through cvc5.  'sat' from cvc5 against z3's 'unsat' is a harness error, never a result."""
+        try:
+            import cvc5
+        except Exception:
+            return
+        s2 = z3.Solver()
+        s2.add(self.solver.assertions())
+        s2.add(negated)
+        txt = "(set-logic ALL)\n" + s2.to_smt2()
+        self.cross["checked"] += 1
+        try:
+            slv = cvc5.Solver()
+            slv.setOption("tlimit-per", "8000")
+            prs = cvc5.InputParser(slv)
+            prs.setStringInput(cvc5.InputLanguage.SMT_LIB_2_6, txt, "q")
+            sm = prs.getSymbolManager()
+            res = ""
+            while True:
+                cmd = prs.nextCommand()
+                if cmd.isNull():
+                    break
+                out = str(cmd.invoke(slv, sm)).strip()
+                if out in ("sat", "unsat", "unknown"):
+                    res = out
+        except Exception as e:     # parse problems etc. are inconclusive, not results
+            res = "error"
+        if res == "unsat":
+            self.cross["agree"] += 1
+        elif res == "sat":
+            self.cross["disagree"] += 1
+            self.inconclusive.append((label, "SOLVER DISAGREEMENT: z3 unsat, cvc5 sat"))
+        else:
+            self.cross["unknown"] += 1
 
     def fail(self, label, detail=None, exc=None):
         """The current path itself is a violation (e.g. a forbidden exception escaped)."""
@@ -360,7 +402,7 @@ class Explorer:
                     discharged=self.discharged, symbolic_obligations=self.symbolic_obligations,
                     inconclusive=self.inconclusive[:20], n_inconclusive=len(self.inconclusive),
                     cex=self.cex, known_hits=self.known_hits, outcomes=self.outcomes,
-                    reached=self.reached, truncated=self.truncated, samples=self.samples,
+                    reached=self.reached, truncated=self.truncated, samples=self.samples, cross=self.cross,
                     wall_s=round(time.time() - self.t0, 3))
 
 
